@@ -130,11 +130,8 @@ def check(prop, tier, jobs=16, only=None, seed=None, verbose=True):
 
 
 def load_known():
-    path = os.path.join(VERIF, "known_findings.json")
-    if not os.path.exists(path):
-        return {"findings": [], "fixed": []}
-    with open(path) as f:
-        return json.load(f)
+    from vlib import chx
+    return chx.known_findings()
 
 
 def finish(prop, tier, conds, results, seed, hseed, t_start, verbose):
